@@ -447,3 +447,97 @@ def reset_defaults():
     for d in _DEFAULT_LISTS:
         del d[:]
     return polluted
+
+
+# --------------------------------------------------------------------------------------------
+# scratch files (one directory per process, removed at exit)
+# --------------------------------------------------------------------------------------------
+_TMP = {}
+
+
+def tmp_path(name):
+    import atexit
+    import shutil
+    import tempfile
+
+    pid = os.getpid()
+    if pid not in _TMP:
+        d = tempfile.mkdtemp(prefix="pdesy_verif_")
+        _TMP.clear()
+        _TMP[pid] = d
+        atexit.register(shutil.rmtree, d, True)
+    return os.path.join(_TMP[pid], name)
+
+
+def json_roundtrip(project, name="p.json"):
+    """write_simple_json + read_simple_json into a new BaseProject."""
+    path = tmp_path(name)
+    project.write_simple_json(path)
+    p2 = BaseProject()
+    p2.read_simple_json(path)
+    return p2, path
+
+
+# --------------------------------------------------------------------------------------------
+# which behaviour-relevant settings survive a JSON round trip? (probed on the current tree)
+# --------------------------------------------------------------------------------------------
+_SAVED = None
+
+
+def saved_settings():
+    """{'wr','fr','wpr','mw','inputs'} -> bool: is the setting part of the saved format?"""
+    global _SAVED
+    if _SAVED is not None:
+        return _SAVED
+    spec = {
+        "tasks": [
+            {"work": 1.0, "prog": 0.0, "auto": False, "nf": True, "comp": 0, "wpr": 1, "wr": 2, "fr": 2,
+             "fixw": None, "fixf": None, "due": -1, "rate": 1.0},
+        ],
+        "deps": [],
+        "comps": [{"space": 1.0, "parent": None}],
+        "teams": [{"targets": [0]}],
+        "workers": [{"team": 0, "cost": 1.0, "solo": False, "skills": {"0": 1.0}, "fsk": {"0": 1.0}, "abs": [], "mw": 1}],
+        "wps": [{"cap": 1.0, "targets": [0], "inputs": []}, {"cap": 1.0, "targets": [0], "inputs": [0]}],
+        "facs": [{"wp": 0, "cost": 0.0, "solo": False, "skills": {"0": 1.0}, "abs": []}],
+    }
+    h = build(spec)
+    out = {"wr": False, "fr": False, "wpr": False, "mw": False, "inputs": False}
+    try:
+        p2, _ = json_roundtrip(h.project, "probe.json")
+        t = p2.workflow.task_list[0]
+        out["wr"] = int(t.worker_priority_rule) == 2
+        out["fr"] = int(t.facility_priority_rule) == 2
+        out["wpr"] = int(t.workplace_priority_rule) == 1
+        w = p2.organization.team_list[0].worker_list[0]
+        out["mw"] = w.main_workplace_id == wpid(1)
+        wp1 = p2.organization.workplace_list[1]
+        wp0 = p2.organization.workplace_list[0]
+        out["inputs"] = (
+            [x.ID for x in wp1.input_workplace_list] == [wpid(0)]
+            and [x.ID for x in wp0.output_workplace_list] == [wpid(1)]
+        )
+    except Exception:  # noqa: BLE001  (a tree where the round trip itself fails: C16 reports it)
+        pass
+    _SAVED = out
+    return out
+
+
+def json_domain(spec):
+    """Copy of spec restricted to settings that are part of the saved format (others at constructor defaults)."""
+    saved = saved_settings()
+    s = json.loads(json.dumps(spec))
+    for t in s["tasks"]:
+        if not saved["wr"]:
+            t["wr"] = -1
+        if not saved["fr"]:
+            t["fr"] = 0
+        if not saved["wpr"]:
+            t["wpr"] = 0
+    if not saved["mw"]:
+        for w in s["workers"]:
+            w["mw"] = None
+    if not saved["inputs"]:
+        for wp in s["wps"]:
+            wp["inputs"] = []
+    return s
